@@ -324,11 +324,22 @@ func (m *cacheModel) resolve(d int64) (bool, int64) {
 	if d == 0 {
 		d = m.w.DefExp
 	}
+	if d > hugeDur {
+		// a deadline decades away: beyond anything a run can reach (simulated time covers hours,
+		// clock jumps included), so the entry is live at every instant of the run
+		return true, 0
+	}
 	if d > 0 {
 		return false, d
 	}
 	return true, 0
 }
+
+// hugeDur separates ordinary durations from the "practically for ever" ones (250 years, 270 years,
+// math.MaxInt64 ns): with those, now+d may not even be representable as Unix nanoseconds.
+const hugeDur = int64(1) << 60
+
+var hugeDurs = []int64{250 * 365 * 24 * int64(time.Hour), 270 * 365 * 24 * int64(time.Hour), 1<<63 - 1}
 
 // janitor applies what the background cleanup may or must have done by the time of an
 // operation observed over [ti,tr].
@@ -706,6 +717,20 @@ func genC08(r *simrt.Rand, tier string, idx uint64) Workload {
 		nops = 3 + r.Intn(16)
 	}
 	durs := []int64{0, -1, 10 * ms, 70 * ms}
+	// swarm: some runs also store under a 1 ns duration and under durations of centuries
+	if r.Bool(0.2) {
+		durs = append(durs, 1)
+	}
+	if r.Bool(0.2) {
+		durs = append(durs, hugeDurs[r.Intn(len(hugeDurs))])
+	}
+	// and a few use another non-positive default ("a default of zero or less" never expires) or a huge one
+	switch r.Intn(25) {
+	case 0:
+		w.DefExp = -7 * ms
+	case 1:
+		w.DefExp = hugeDurs[r.Intn(len(hugeDurs))]
+	}
 	cur := int64(0)
 	var deadlines []int64
 	nextVal := 1
@@ -720,7 +745,7 @@ func genC08(r *simrt.Rand, tier string, idx uint64) Workload {
 		if d == 0 {
 			d = w.DefExp
 		}
-		if d > 0 {
+		if d > 0 && d < hugeDur {
 			deadlines = append(deadlines, cur+d)
 		}
 	}
